@@ -150,6 +150,81 @@ def StatsSound (s : SegRef) : Prop :=
 /-- every record carries its segment's partition -/
 def PartitionSound (s : SegRef) : Prop := ∀ r ∈ s.recs, r.partition = s.partition
 
+/-! ### faults: a query either fails or returns the direct result
+
+`handleSelect` has these fallible calls on the plain single-topic path: `lister.ListCompleted`
+(→ `return queryResult{}, err`), and per candidate segment `ctx.Err()` and `dec.Decode` (→ `return
+queryResult{}, err`).  A fault oracle says, per query, whether the listing fails and for which
+listing positions the context is cancelled / `Decode` fails.  A fault only manifests when the
+segment is a candidate (not skipped by `filterSegments`) and is reached (the early `return` at
+`limit` ends the loop before later segments are touched). -/
+
+/-- what `handleSelect` does after the segment loop (the tail of `select`) -/
+def finishRows (q : Query) (st : Loop) : List Rec :=
+  if st.done then st.sent
+  else match q.order with
+    | some desc =>
+      let sorted := sortByTs desc st.rows
+      st.sent ++ (if q.limit > 0 ∧ sorted.length > q.limit then sorted.take q.limit else sorted)
+    | none => if q.tail > 0 then st.sent ++ st.tailRows else st.sent
+
+/-- `filterSegments` keeping each candidate's position in the listing (the fault oracle's index) -/
+def candidatesFrom (q : Query) : List SegRef → Nat → List (SegRef × Nat)
+  | [], _ => []
+  | s :: rest, i =>
+    if segmentSelected q s then (s, i) :: candidatesFrom q rest (i + 1) else candidatesFrom q rest (i + 1)
+
+/-- one iteration of `for _, segment := range candidates`; the `Bool` is "returned an error".
+After the early return at `limit` (`done`) and after an error nothing else runs. -/
+def segmentStepF (q : Query) (fault : Nat → Bool) (acc : Loop × Bool) (s : SegRef × Nat) : Loop × Bool :=
+  if acc.2 then acc
+  else if acc.1.done then acc
+  else if fault s.2 then (acc.1, true)
+  else (segmentStep q acc.1 s.1, false)
+
+/-- `handleSelect` under faults: `none` = the query failed (ErrorResponse), `some rows` = it
+completed (`SELECT n`) with these DataRows -/
+def selectF (q : Query) (segs : List SegRef) (listFault : Bool) (fault : Nat → Bool) : Option (List Rec) :=
+  if listFault then none
+  else
+    let r := (candidatesFrom q segs 0).foldl (segmentStepF q fault) (⟨[], [], [], false⟩, false)
+    if r.2 then none else some (finishRows q r.1)
+
+/-! ### the result cache (`handleSelectWithCache`) -/
+
+def lookupKey {κ : Type} [DecidableEq κ] (k : κ) : List (κ × List Rec) → Option (List Rec)
+  | [] => none
+  | (k', rows) :: rest => if k' = k then some rows else lookupKey k rest
+
+/-- `handleSelectWithCache`: a cacheable query (`cacheKey` ok: both time bounds, no TAIL) is looked up by
+its text; on a miss the query runs and its rows are stored only when it succeeded. `qOf` maps the
+query text to the parsed query. -/
+def cachedSelect {κ : Type} [DecidableEq κ] (segs : List SegRef) (qOf : κ → Query) (cacheable : κ → Bool)
+    (c : List (κ × List Rec)) (k : κ) (listFault : Bool) (fault : Nat → Bool) :
+    List (κ × List Rec) × Option (List Rec) :=
+  if cacheable k then
+    match lookupKey k c with
+    | some rows => (c, some rows)
+    | none =>
+      match selectF (qOf k) segs listFault fault with
+      | some rows => ((k, rows) :: c, some rows)
+      | none => (c, none)
+  else (c, selectF (qOf k) segs listFault fault)
+
+/-- one query of a history: its text and the faults that hit it -/
+structure FQuery (κ : Type) where
+  key : κ
+  listFault : Bool
+  fault : Nat → Bool
+
+/-- a history of queries over a fixed segment set through the caching handler: the answers -/
+def runCached {κ : Type} [DecidableEq κ] (segs : List SegRef) (qOf : κ → Query) (cacheable : κ → Bool) :
+    List (FQuery κ) → List (κ × List Rec) → List (Option (List Rec))
+  | [], _ => []
+  | x :: rest, c =>
+    let r := cachedSelect segs qOf cacheable c x.key x.listFault x.fault
+    r.2 :: runCached segs qOf cacheable rest r.1
+
 /-! ### discovery: statistics from the listing -/
 
 /-- one partition's listed segments: (base offset, decoded records), sorted by base -/
